@@ -16,6 +16,10 @@ func main() {
 	if err != nil {
 		panic(err)
 	}
+	if len(os.Args) > 1 && os.Args[1] == "gate" {
+		dumpGate(p)
+		return
+	}
 	for _, a := range os.Args[1:] {
 		parts := strings.SplitN(a, ":", 2)
 		fn := p.Func(parts[0], parts[1])
